@@ -216,6 +216,8 @@ class PeerCase:
             addr = "::1" if s.get("ip6") else "127.0.0.%d" % (1 + (i + s.get("addr_off", 0)) % 200)
             ls = socket.socket(fam, socket.SOCK_STREAM)
             ls.setsockopt(socket.SOL_SOCKET, socket.SO_REUSEADDR, 1)
+            if s.get("ctl_rcvbuf"):
+                ls.setsockopt(socket.SOL_SOCKET, socket.SO_RCVBUF, s["ctl_rcvbuf"])      # a server that takes its commands slowly
             ls.bind((addr, 0))
             port = ls.getsockname()[1]
             slog = dict(index=i, addr=addr, port=port, lines=[], raw_pre_tls=b"", raw_first_after_auth=None, data=[],
@@ -268,6 +270,8 @@ class PeerCase:
             buf = bytearray()
             while not self.stop:
                 # read one command line
+                if s.get("ctl_read_delay_s"):
+                    time.sleep(s["ctl_read_delay_s"])
                 while b"\n" not in buf:
                     d = ch.recv_some(s.get("idle_timeout", IO_TIMEOUT))
                     if not d:
